@@ -28,10 +28,12 @@ impl Ctx {
             outs.extend(observe(&store));
             let mut step = Vec::new();
             for h in 0..store.annotations_len() {
-                if let Some((stored, expanded)) = obs_stored(&store, h) {
-                    step.push(l(vec![crate::sx::a(h as i64), stored.clone(), expanded.clone()]));
+                if let Some((stored, expanded, kind)) = obs_stored(&store, h) {
+                    step.push(l(vec![crate::sx::a(h as i64), stored.clone(), expanded.clone(), crate::sx::a(kind)]));
                     outs.push(stored);
                     outs.push(expanded);
+                    // the members of Multi/Composite selectors are kept in the order of the model's comparator
+                    outs.push(crate::sx::a(1));
                 }
             }
             forms.push(l(step));
